@@ -2,11 +2,11 @@ SPECIFICATION Spec
 CONSTANTS
   ArgsOf <- MCArgs
   InitHeaps <- MCInit
-  MaxDepth = 2
-  Breaks <- BreaksQ
-  Degs <- DegsQ
-  MaxNpts = 5
-  CtorLen = 6
+  MaxDepth = 3
+  Breaks <- BreaksT
+  Degs <- DegsT
+  MaxNpts = 6
+  CtorLen = 7
   Rich = FALSE
   Acts = {}
 INVARIANT WellFormed
